@@ -4,8 +4,10 @@
 package proj
 
 import (
+	"context"
 	"crypto/sha256"
 	"encoding/hex"
+	"encoding/json"
 	"fmt"
 	"reflect"
 	"sort"
@@ -14,9 +16,11 @@ import (
 
 	"github.com/cockroachdb/errors"
 	"github.com/cockroachdb/errors/errbase"
+	"github.com/cockroachdb/errors/errorspb"
 	"github.com/cockroachdb/errors/extgrpc"
 	"github.com/cockroachdb/errors/exthttp"
 	"github.com/cockroachdb/redact"
+	"github.com/gogo/protobuf/types"
 	"google.golang.org/grpc/codes"
 
 	"verifharness/internal/cat"
@@ -290,4 +294,143 @@ func IsXOf(e error, pool []error) *IsX {
 		NilNil: b2s(func() bool { return errors.Is(nil, nil) }),
 		AnyNil: b2s(func() bool { return errors.IsAny(e, nil) }),
 	}
+}
+
+// Rend abstracts one redactable rendering.
+type Rend struct {
+	Out  []string `json:"out"`  // words outside redaction markers
+	In   []string `json:"in"`   // words inside redaction markers
+	M    []int    `json:"m"`    // marker stream: 1 = open, 2 = close, 3 = newline
+	Cong bool     `json:"cong"` // markers stripped == plain rendering via Formattable
+	Bang bool     `json:"bang"` // markers stripped starts with "%!" (verb refused)
+}
+
+// Outs are the outputs the library declares PII-free, abstracted to the words
+// they contain, plus the redactable renderings.
+type Outs struct {
+	RV       *Rend    `json:"rv"`
+	RPV      *Rend    `json:"rpv"`
+	RS       *Rend    `json:"rs"`
+	RQ       *Rend    `json:"rq"`
+	RX       *Rend    `json:"rx"`
+	Redacted []string `json:"redacted"` // words in the Redact()ed %+v rendering
+	Safe     []string `json:"safe"`     // words in GetAllSafeDetails
+	WireRP   []string `json:"wirerp"`   // words in the reportable payloads on the wire
+	Report   []string `json:"report"`   // words in the Sentry event and extras
+}
+
+func sortedSet(m map[string]bool) []string {
+	out := []string{}
+	for k := range m {
+		out = append(out, k)
+	}
+	sort.Strings(out)
+	return out
+}
+
+func rendOf(e error, verb string) *Rend {
+	r := redact.Sprintf(verb, e)
+	s := string(r)
+	out, in := map[string]bool{}, map[string]bool{}
+	m := []int{}
+	depth := 0
+	for i := 0; i < len(s); {
+		switch {
+		case strings.HasPrefix(s[i:], "‹"):
+			m = append(m, 1)
+			depth++
+			i += len("‹")
+		case strings.HasPrefix(s[i:], "›"):
+			m = append(m, 2)
+			depth--
+			i += len("›")
+		case s[i] == '\n':
+			m = append(m, 3)
+			i++
+		case s[i] == 'Z':
+			if w, n := tok.WordAt(s[i:]); n > 0 {
+				if depth > 0 {
+					in[w] = true
+				} else {
+					out[w] = true
+				}
+				i += n
+			} else {
+				i++
+			}
+		default:
+			i++
+		}
+	}
+	stripped := r.StripMarkers()
+	plain := fmt.Sprintf(verb, errors.Formattable(e))
+	return &Rend{Out: sortedSet(out), In: sortedSet(in), M: m, Cong: stripped == plain,
+		Bang: strings.HasPrefix(stripped, "%!")}
+}
+
+func min(a, b int) int {
+	if a < b {
+		return a
+	}
+	return b
+}
+
+func wordSet(ss ...string) []string {
+	m := map[string]bool{}
+	for _, s := range ss {
+		for _, w := range tok.Words(s) {
+			m[w] = true
+		}
+	}
+	return sortedSet(m)
+}
+
+func wireRP(enc *errorspb.EncodedError, acc *[]string) {
+	var det *errorspb.EncodedErrorDetails
+	if w := enc.GetWrapper(); w != nil {
+		det = &w.Details
+		wireRP(&w.Cause, acc)
+	} else if l := enc.GetLeaf(); l != nil {
+		det = &l.Details
+		for _, c := range l.MultierrorCauses {
+			wireRP(c, acc)
+		}
+	}
+	if det == nil {
+		return
+	}
+	*acc = append(*acc, det.ReportablePayload...)
+	*acc = append(*acc, det.OriginalTypeName, det.ErrorTypeMark.FamilyName, det.ErrorTypeMark.Extension)
+	if det.FullDetails != nil {
+		var da types.DynamicAny
+		if err := types.UnmarshalAny(det.FullDetails, &da); err == nil {
+			if inner, ok := da.Message.(*errorspb.EncodedError); ok {
+				wireRP(inner, acc)
+			}
+		}
+	}
+}
+
+// OutsOf computes the PII-free outputs.
+func OutsOf(e error) *Outs {
+	o := &Outs{
+		RV: rendOf(e, "%v"), RPV: rendOf(e, "%+v"), RS: rendOf(e, "%s"),
+		RQ: rendOf(e, "%q"), RX: rendOf(e, "%x"),
+	}
+	o.Redacted = wordSet(string(redact.Sprintf("%+v", e).Redact()), string(redact.Sprintf("%v", e).Redact()),
+		errors.Redact(e))
+	var sd []string
+	for _, p := range errors.GetAllSafeDetails(e) {
+		sd = append(sd, p.SafeDetails...)
+	}
+	o.Safe = wordSet(sd...)
+	enc := errors.EncodeError(context.Background(), e)
+	var rp []string
+	wireRP(&enc, &rp)
+	o.WireRP = wordSet(rp...)
+	ev, extras := errors.BuildSentryReport(e)
+	b1, _ := json.Marshal(ev)
+	b2, _ := json.Marshal(extras)
+	o.Report = wordSet(string(b1), string(b2))
+	return o
 }
